@@ -357,6 +357,9 @@ func (e *Engine) runPath(h *ssa.Function, prefix []int64, wk *Worker, opts Explo
 				if os.Getenv("VERIF_DEBUG") != "" {
 					fmt.Fprintf(os.Stderr, "inconclusive: %s\n%s\n", p.msg, r.stackString())
 				}
+			case processCrash:
+				pr.Outcome = "panic"
+				r.reportEnd("panic", "unrecovered panic in a goroutine (the process terminates): "+p.p.p.msg+"\n"+p.p.stack)
 			case deadlock:
 				pr.Outcome = "deadlock"
 				r.reportEnd("deadlock", "all goroutines are blocked:\n"+r.describeBlocked())
@@ -425,7 +428,10 @@ func (r *Run) reportEnd(kind, detail string) {
 
 func (r *Run) sampleString() string {
 	var sb strings.Builder
-	fmt.Fprintf(&sb, "decisions=%v nondet=%d pc=%d", r.decisions, len(r.nondet), len(r.pc))
+	fmt.Fprintf(&sb, "decisions=%v nondet=%d pc=%d selects=%d", r.decisions, len(r.nondet), len(r.pc), r.res.SelectChoices)
+	if debugDecisions {
+		sb.WriteString("\n" + strings.Join(r.notes, "\n"))
+	}
 	return sb.String()
 }
 
